@@ -323,6 +323,131 @@ def list_item_rule(ck, facts):
         ck.bad("R4.3", key + "#second-first", "a second rdf:first arc does not make list_item answer None", fn.loc)
 
 
+def run_ints(fn, env, upvals, on_stmt, max_steps=500):
+    """Tiny evaluator for code whose control depends only on small integers (a position 0..3) through comparisons with
+    constants: `env` maps locals to ints, `upvals` maps a captured-variable index to an int (closure bodies read them as
+    `*(_1.k)`).  `on_stmt(st, env)` is called before each statement and may return a result to stop.  Unknown values are
+    None; a switch on an unknown value aborts with "unknown".  A finite evaluation of an abstraction, not execution."""
+    env = dict(env)
+    upref = {}
+    bi = 0
+    for _ in range(max_steps):
+        b = fn.blocks[bi]
+
+        def val(op):
+            if op[0] == "k":
+                return int(op[1]["v"]) if op[1].get("kind") == "int" else None
+            pl = op[1]
+            if len(pl) == 1:
+                return env.get(pl[0])
+            if len(pl) == 2 and pl[1] == "*" and pl[0] in upref:
+                return upvals.get(upref[pl[0]])
+            return None
+        for st in b["s"]:
+            r = on_stmt(st, env)
+            if r is not None:
+                return r
+            if st[0] != "=" or len(st[1]) != 1:
+                continue
+            d, rv = st[1][0], st[2]
+            if rv[0] == "use":
+                op = rv[1]
+                m = re.match(r"f(\d+):", op[1][1]) if op[0] != "k" and len(op[1]) == 2 and op[1][0] == 1 and isinstance(op[1][1], str) else None
+                if m and fn.kind == "Closure":
+                    upref[d] = int(m.group(1))
+                    env[d] = None
+                else:
+                    env[d] = val(op)
+            elif rv[0] == "bin":
+                a, c = val(rv[2]), val(rv[3])
+                r2 = None
+                if a is not None and c is not None:
+                    r2 = {"Eq": a == c, "Ne": a != c, "Lt": a < c, "Le": a <= c, "Gt": a > c, "Ge": a >= c,
+                          "BitOr": a | c, "BitAnd": a & c}.get(rv[1])
+                env[d] = None if r2 is None else int(r2)
+            elif rv[0] == "un" and rv[1] == "Not":
+                a = val(rv[2])
+                env[d] = 1 - a if a in (0, 1) else None
+            else:
+                env[d] = None
+        t = b["t"]
+        k = t["t"]
+        if k in ("goto", "drop", "assert"):
+            bi = t["to"]
+        elif k == "switch":
+            v = val(t["on"])
+            if v is None:
+                return "unknown"
+            nxt = t["else"]
+            for sv, tb in t["vals"]:
+                if int(sv) == v:
+                    nxt = tb
+            bi = nxt
+        elif k == "call":
+            if t["to"] is None:
+                return "diverges"
+            if len(t["dest"]) == 1:
+                env[t["dest"][0]] = None
+            bi = t["to"]
+        else:
+            return "end"
+    return "unknown"
+
+
+def position_table_rule(ck, facts):
+    """R4.4: a blank node used as predicate or as graph name keeps its label (it cannot be written as `[ .. ]` there): the
+    `bad` flag of a new BnodeProfile, as a function of the position i of the occurrence (0..3), is true for i = 1 and i = 3,
+    and BnodeProfile::update_positions sets it for pos = 1 and pos = 3.  Both decided by evaluating the four cases."""
+    want = {0: 0, 1: 1, 2: 0, 3: 1}
+    parent = find_one(ck, facts, "R4.4", "sophia_turtle", r"serializer::_pretty::build_labelled$", "build_labelled")
+    if parent is not None:
+        done = False
+        for c in facts.with_closures(parent)[1:]:
+            aggs = [st for b in c.blocks for st in b["s"] if st[0] == "=" and st[1] == [0] and st[2][0] == "agg"
+                    and st[2][1].get("def", "").endswith("_pretty::BnodeProfile")]
+            ups = sorted({int(re.match(r"f(\d+):", st[2][1][1][1]).group(1)) for b in c.blocks for st in b["s"]
+                          if st[0] == "=" and st[2][0] == "use" and st[2][1][0] != "k" and len(st[2][1][1]) == 2
+                          and st[2][1][1][0] == 1 and isinstance(st[2][1][1][1], str) and re.match(r"f\d+:", st[2][1][1][1])
+                          and c.locals[st[1][0]]["ty"] in ("&usize", "&mut usize")})
+            if not aggs or len(ups) != 1:
+                continue
+            bad_op = aggs[0][2][2][0]
+            got = {}
+            for i in range(4):
+                def on_stmt(st, env, _agg=aggs[0]):
+                    if st is _agg:
+                        return ("val", env.get(bad_op[1][0]) if bad_op[0] != "k" else int(bad_op[1]["v"]))
+                    return None
+                r = run_ints(c, {}, {ups[0]: i}, on_stmt)
+                got[i] = r[1] if isinstance(r, tuple) else None
+            done = True
+            if got == want:
+                ck.ok("R4.4", "new BnodeProfile: bad(position) = %s (predicate and graph-name occurrences keep their label)" % got)
+            else:
+                ck.bad("R4.4", "R4.4@build_labelled#first-occurrence", "a blank node first met at position i gets bad=%s; positions 1 "
+                       "(predicate) and 3 (graph name) must force a label: such a node cannot be written as `[ .. ]` there" % got, c.loc)
+        if not done:
+            ck.bad("R4.4", "R4.4@build_labelled#shape", "cannot find the closure that creates a BnodeProfile from the position", parent.loc)
+    fn = find_one(ck, facts, "R4.4", "sophia_turtle", r"_pretty::BnodeProfile::<'a>::update_positions$", "BnodeProfile::update_positions")
+    if fn is not None:
+        got = {}
+        for pos in range(4):
+            hit = {"bad": 0}
+
+            def on_stmt(st, env):
+                if st[0] == "=" and len(st[1]) > 1 and st[1][0] == 1 and str(st[1][-1]).endswith(":bad") \
+                        and st[2][0] == "use" and st[2][1][0] == "k" and st[2][1][1].get("v") == "1":
+                    hit["bad"] = 1
+                return None
+            r = run_ints(fn, {2: pos}, {}, on_stmt)
+            got[pos] = hit["bad"] if r in ("end",) else (hit["bad"] if r != "unknown" else None)
+        # positions 1 and 3 must set the flag; 0 and 2 may (second predecessor) but not unconditionally on the first call
+        if got.get(1) == 1 and got.get(3) == 1:
+            ck.ok("R4.4", "update_positions: a further occurrence as predicate or graph name sets bad (%s)" % got)
+        else:
+            ck.bad("R4.4", "R4.4@update_positions#positions", "update_positions(pos) sets bad=%s; positions 1 and 3 must always set it" % got, fn.loc)
+
+
 def prefixed_pair_rule(ck, facts):
     """<[(P,N)] as PrefixMap>::get_checked_prefixed_pair: the pair stored is (prefix of entry e, iri[len(ns_e)..])
     under starts_with(iri, ns_e) and suffix_check(suffix) of the same iteration."""
@@ -479,6 +604,7 @@ def run(ck, facts, tier):
     prefix_rule(ck, facts, rl, owners)
     prefixed_pair_rule(ck, facts)
     list_item_rule(ck, facts)
+    position_table_rule(ck, facts)
     linfo, res = rl.run()
     for name, info in linfo.items():
         if not info.get("ok"):
